@@ -17,6 +17,10 @@ CLAIMED["C03"] = ("function/method round trip over the emitter option grid: " + 
 CLAIMED["C04"] = ("argparse-function round trip on the argparse-expressible part of the domain: " + _RT, "DESIGN.md#c04")
 CLAIMED["C05"] = ("chains of two and three representation kinds executed directly and judged against the start IR: " + _RT, "DESIGN.md#c05")
 CLAIMED["C08"] = ("second and third emission compared (string / structural equality) with symbolic content: " + _RT, "DESIGN.md#c08")
+CLAIMED["C06"] = ("emitted code judged (S) by reference models of Python's binding rules on the emitted AST with symbolic defaults, and (F) by the "
+    "interpreter itself (compile, exec, inspect.signature, class __dict__, real ArgumentParser) over a solver-enumerated finite value domain", "DESIGN.md#c06")
+CLAIMED["C13"] = ("interference: frame conditions per emitter with symbolic content, plus every emitter sequence of length <=4 on one shared IR "
+    "(sequence chosen by the solver, exhaustive) compared against fresh copies", "DESIGN.md#c13")
 NA = {
     "C19": "gen: every data path crosses importlib / inspect.getsource / compile+exec / file output, no symbolic data path is left; what remains is enumeration of a few concrete configurations, which is not this technique (DESIGN.md §C19)",
 }
